@@ -59,7 +59,7 @@ def correspondence(ctx):
         for k, (cons, line, ans) in enumerate(zip(jobs, lines, answers)):
             if k % 40 == 0:
                 m = bench.mapping(2 * L + 2, rng)
-            objs = B.real_cons(bench, cons, m)
+            objs = B.real_cons(bench, cons, m, respell=rng)
             arg = list(objs)
             impl = B.res_bool(lambda: VersionConstraint.validate(arg))
             model, wf = ans.split(" ")
@@ -67,7 +67,7 @@ def correspondence(ctx):
             ctx.count(stream, key=line, nontrivial=len(cons) >= 2, branch=expected,
                       error=impl[4:] if impl.startswith("err:") else None)
             if impl != expected:
-                d = B.describe(bench, cons, m)
+                d = B.describe(bench, cons, m, objs=objs)
                 d["python"] = ("from univers.versions import %s as V; from univers.version_constraint import VersionConstraint as C; "
                                "print(C.validate([C.from_string(s, V) for s in %r]))" % (S.vclass(name).__name__, d["constraints"]))
                 ctx.disagree(stream, line, impl, model, True, d, spec=expected)
@@ -84,3 +84,65 @@ def correspondence(ctx):
                         ctx.disagree(stream + ":member", line + " @%d" % x, out, "ok:_", True, d, spec="no error")
         if name == "pypi":
             ctx.sample({"line": lines[50], "model wf": answers[50], "scheme": name})
+    _cross_scheme(ctx)
+
+
+SHARED_TEXTS = ["1.0.0", "1.0.0-alpha", "1.0", "1.0.0-1", "1.0.0a", "1.0.0.1", "2.0.0", "1.0.0+1", "1.0.0~rc1", "1.0.0_p1",
+                "1.0.0-beta", "0.9", "1.0.0-rc1", "1.0.1"]
+
+
+def _cross_scheme(ctx):
+    """the same constraint texts under several schemes, interleaved: the same text is well-formed in one scheme and
+    not in another (1.0.0-alpha sorts after 1.0.0 in deb, before it in semver), so anything remembered about a
+    list from one scheme must not leak into the next"""
+    from harness import pools
+    rng = ctx.rng("c07-cross")
+    ranks = {}
+    for name in S.ALL:
+        p = pools.Pool(name)
+        objs = {}
+        for t in SHARED_TEXTS:
+            try:
+                v = S.make(name, t)
+            except Exception:  # noqa: BLE001
+                continue
+            if p.insert(t, v):
+                objs[t] = v
+        if not p.hashable:
+            continue
+        rk = {}
+        for i, cl in enumerate(p.classes):
+            for t, _v in cl:
+                if t in objs:
+                    rk[t] = 2 * (i + 1)
+        if len(rk) >= 3:
+            ranks[name] = (rk, objs)
+    jobs = []
+    for _ in range(400 if ctx.thorough else 150):
+        n = rng.choice([2, 2, 3, 3, 4])
+        texts = rng.sample(SHARED_TEXTS, n)
+        cmps = [rng.choice(B.CMPRS) for _ in range(n)]
+        jobs.append(list(zip(cmps, texts)))
+    work = []
+    for job in jobs:
+        names = [nm for nm in ranks if all(t in ranks[nm][0] for _, t in job)]
+        rng.shuffle(names)
+        for nm in names:
+            work.append((nm, job, "validate %s" % B.cons_line([(c, ranks[nm][0][t]) for c, t in job])))
+    answers = common.run_model([w[2] for w in work])
+    for (nm, job, line), ans in zip(work, answers):
+        stream = "cross-scheme:" + nm
+        rk, objs = ranks[nm]
+        arg = [VersionConstraint(comparator=B.TXT[c], version=objs[t]) for c, t in job]
+        impl = B.res_bool(lambda: VersionConstraint.validate(arg))
+        model, wf = ans.split(" ")
+        expected = "ok:true" if wf == "true" else "err:ValueError"
+        ctx.count(stream, key=line + "|" + ",".join(t for _, t in job), nontrivial=True, branch=expected)
+        if impl != expected:
+            cons = [B.TXT[c] + t for c, t in job]
+            ctx.disagree(stream, line, impl, model, True,
+                         {"scheme": nm, "constraints": cons,
+                          "history": "the same texts were validated under other schemes earlier in this process",
+                          "python": "from univers.versions import %s as V; from univers.version_constraint import VersionConstraint as C; "
+                                    "print(C.validate([C.from_string(s, V) for s in %r]))" % (S.vclass(nm).__name__, cons)},
+                         spec=expected)
